@@ -74,7 +74,7 @@ def _chk_center(args, res, old):
     import numpy as np
     before, after = old["cnarr"], res
     d = after.data["log2"].values - before.data["log2"].values
-    if len(d) and np.abs(d - d[0]).max() > 1e-9 * max(1.0, np.abs(d).max()):
+    if len(d) and not np.abs(d - d[0]).max() <= 1e-9 * max(1.0, np.abs(d).max()):
         return "center_all does not add one constant to every bin: shifts range over [%r, %r]" % (d.min(), d.max())
     for c in before.data.columns:
         if c != "log2" and not before.data[c].equals(after.data[c]):
@@ -136,7 +136,7 @@ def _chk_shift(args, res, old):
         delta = 1.0
     for b, a in zip(cn.data.itertuples(index=False), res.data.itertuples(index=False)):
         want = b.log2 + (delta if b.chromosome == xl else 0.0)
-        if abs(a.log2 - want) > 1e-12:
+        if not abs(a.log2 - want) <= 1e-12:
             return "shift_xx(male_ref=%s, is_xx=%s): %s bin moved from %r to %r, expected %r" % (
                 old["male_ref"], old["is_xx"], b.chromosome, b.log2, a.log2, want)
 
@@ -203,7 +203,7 @@ def _chk_sex(args, res, old):
     want = 0.0 if not old["male_ref"] else -1.0 + 1.0 * 0   # level of X after shift: autosomal for a female reference,
     # and the single-copy level of the male reference otherwise (the reference's own X ploidy)
     target = np.median(a) + (0.0 if not old["male_ref"] else 0.0)
-    if abs(np.median(x) - target) > 5 * old["sd"] / np.sqrt(len(x)) + 0.05:
+    if not abs(np.median(x) - target) <= 5 * old["sd"] / np.sqrt(len(x)) + 0.05:
         return "after shift_xx chrX sits at %r, autosomes at %r" % (float(np.median(x)), float(np.median(a)))
 
 
